@@ -24,6 +24,7 @@ pub fn clone_world(w: &World) -> World {
         array_rent: w.array_rent.clone(),
         pos_rent: w.pos_rent.clone(),
         c12_mismatch: None,
+        snap: None,
     }
 }
 
